@@ -31,6 +31,9 @@ Proof. reflexivity. Qed.
 Lemma sq_idem_add a b : sq (sq a + b) = sq (a + b).
 Proof. unfold sq. rewrite Zplus_mod_idemp_l. reflexivity. Qed.
 
+Lemma sq_idem_add3 a b c : sq (sq a + b + c) = sq (a + b + c).
+Proof. replace (sq a + b + c) with (sq a + (b + c)) by lia. rewrite sq_idem_add. f_equal. lia. Qed.
+
 Lemma sq_succ_inj a b : sq (a + 1) = sq (b + 1) -> sq a = sq b.
 Proof. unfold sq. intros H. change (2 ^ 32) with 4294967296 in *. lia. Qed.
 
@@ -253,8 +256,9 @@ Definition DIR (S : Z -> Z) (F : option Z) (ex : endpoint) (gx : eghost) (ey : e
   (forall k, g_have (eg_rx gy) k -> eg_J gx <> None /\ 0 <= k < l_len (ep_written ex)) /\
   (* before x sends data y has received nothing *)
   (eg_J gx = None -> eg_R gy = 0) /\
-  (* SND.UNA of x <= RCV.NXT of y *)
+  (* SND.UNA of x <= RCV.NXT of y <= what x has written (+ FIN) *)
   (g_una (eg_tx gx) <= eg_R gy + 1) /\
+  (eg_R gy <= l_len (ep_written ex) + 1) /\
   (* acknowledgement numbers y has sent are irs + 1 + (at most what it has received) *)
   (forall p, In p (ep_sent ey) -> r_control (snd p) <> CRst ->
      forall a, r_ack_number (snd p) = Some a ->
@@ -444,7 +448,7 @@ Proof. intros H E. unfold tcp_accepts in H. rewrite E in H. cbn in H. discrimina
 Lemma same_closed_syn g s ev g' out s' :
   inv g' s' -> tx_same g s ev g' out -> s_state s = Closed -> g_phase g = PSyn -> g_phase g' = PSyn.
 Proof.
-  intros Hi (_ & _ & _ & _ & _ & Hle & Hadv) Hc Hp.
+  intros Hi (_ & _ & _ & _ & _ & Hle & _ & Hadv) Hc Hp.
   destruct (g_phase g') eqn:E; [reflexivity|exfalso..].
   all: rewrite (una_syn g Hp) in *;
        assert (H1 : 1 <= g_una g') by (apply (una_pos g' s' Hi); congruence);
@@ -694,3 +698,380 @@ Section KLink.
         * destruct Hk as [E|E]; [left; exact E | right; apply (HC E)].
   Qed.
 End KLink.
+
+(* ---------------------------------------------------------------------------------------- *)
+(* a segment the sender emits is consistent with the stream oracle                           *)
+(* ---------------------------------------------------------------------------------------- *)
+Lemma pkt_good_new S F ex' gt' J' R p :
+  inv gt' (ep_sock ex') -> tx_pkt_ok gt' p -> txl gt' ex' -> jl J' gt' (ep_sock ex') ->
+  compat S F ex' -> g_una gt' <= R + 1 ->
+  pkt_good S F J' (l_len (ep_written ex')) R p.
+Proof.
+  intros Hi (W1 & W2 & W3 & W4 & W5 & Hsyn & Hrst & Hcar) Htxl Hjl (C1 & C2 & C3) Huna.
+  split.
+  - unfold pkt_wf. pose proof (TcpRecvBase.l_len_nonneg (r_payload (snd p))).
+    split; [exact W1|]. split; [lia|]. split; [exact W3|]. split; [exact W4 | exact W5].
+  - intros Hc. destruct (Hcar Hc) as (Hp & Hkind).
+    unfold jl in Hjl. destruct J' as [j|]; [|congruence].
+    destruct Hjl as (Hj & Hiss & _). specialize (Hiss Hp).
+    exists j. split; [reflexivity|].
+    destruct Htxl as [(T1 & T2) | (_ & (_ & _ & B3))]; [|congruence].
+    destruct Hkind as [(k & Hk0 & Hseq & Hpay & Hlen & Hfin) | (Hn1 & Hctl & u & Hu & Hseq)].
+    + left. exists k. split; [exact Hk0|].
+      split; [rewrite Hseq, <- Hiss, sq_idem_add3; reflexivity|].
+      rewrite T1 in *.
+      split.
+      * intros i Hi'. rewrite Hpay. rewrite l_slice_znth by lia. apply C1.
+        pose proof (TcpRecvBase.l_len_nonneg (r_payload (snd p))). lia.
+      * split; [exact Hlen|]. intros Hf. destruct (Hfin Hf) as (Hgf & Hkn).
+        rewrite Hkn. apply C3. rewrite <- T2. exact Hgf.
+    + right. split; [exact Hn1|]. split; [exact Hctl|]. exists u. split; [lia|].
+      rewrite Hseq, <- Hiss, sq_idem_add. reflexivity.
+Qed.
+
+(* ---------------------------------------------------------------------------------------- *)
+(* SND.UNA moves only to what the peer has really received (handshake and ACK argument)      *)
+(* ---------------------------------------------------------------------------------------- *)
+Lemma una_advance s ev s' out gt gt' J Ky Ry L p ex :
+  inv gt s -> inv gt' s' -> tx_same gt s ev gt' out -> g_una gt < g_una gt' ->
+  ev = EvSegment (fst p) (wire_parse (snd p)) ->
+  (r_control (snd p) <> CRst -> forall a, r_ack_number (snd p) = Some a ->
+     exists irs c, Ky = Some irs /\ a = sq (irs + 1 + c) /\ 0 <= c <= Ry) ->
+  (forall k, Ky = Some k -> 0 <= k < 4294967296) ->
+  jl J gt s -> (forall j k, J = Some j -> Ky = Some k -> k = j) -> (J = None -> Ry = 0) ->
+  txl gt ex -> ep_sock ex = s -> L = l_len (ep_written ex) -> Ry <= L + 1 ->
+  (forall a c, r_ack_number (snd p) = Some a -> 0 <= c <= L + 1 ->
+     a = seq_norm (s_local_seq_no s + (c - una_off ex)) ->
+     - 2147483648 <= c - una_off ex < 2147483648) ->
+  exists irs, Ky = Some irs /\ irs = sq (g_iss gt') /\ g_una gt' <= Ry + 1.
+Proof.
+  intros Hi Hi' Hs Hlt Hev Huu HKr Hjl Hanchor Hquiet Htxl Hsock HL HRL Hage.
+  pose proof Hs as (Hiss & Hstream & _ & _ & _ & _ & Hsyn1 & Hadv).
+  destruct (Hadv Hlt) as (ip & r & Hev' & Hacc & Hnrst & Hack).
+  rewrite Hev in Hev'. inversion Hev'; subst ip r; clear Hev'.
+  destruct (wire_parse_fields (snd p)) as (_ & _ & P3 & P4). rewrite P3 in Hnrst. rewrite P4 in Hack.
+  destruct (Huu Hnrst _ Hack) as (irs & c & HK & Ha & Hc).
+  pose proof (HKr _ HK) as Hirs_r.
+  pose proof (accepts_not_closed' _ _ _ Hacc) as Hncl.
+  exists irs. split; [exact HK|].
+  unfold jl in Hjl. destruct J as [j|].
+  - destruct Hjl as (Hj & Hd & Hcl).
+    assert (Hp : g_phase gt <> PSyn) by (intros E; apply Hncl; apply Hcl; exact E).
+    specialize (Hd Hp). pose proof (Hanchor j irs eq_refl HK) as Hij. subst irs.
+    split; [rewrite Hiss; symmetry; exact Hd|].
+    (* the sender invariant before and after *)
+    destruct Hi as ((Hwf & Hcap & Ha0 & Hlen & _ & Hlsn & _ & _ & _ & Hph & _) & _).
+    destruct Hi' as ((Hwf' & Hcap' & Ha0' & Hlen' & _ & _ & _ & _ & _ & Hph' & _) & _).
+    destruct Htxl as [(T1 & _) | (Dc & _)]; [|rewrite Hsock in Dc; congruence].
+    assert (Hstr : g_stream gt' = g_stream gt) by (rewrite Hstream, Hev; reflexivity).
+    assert (Huo : una_off ex = g_acked gt).
+    { unfold una_off. rewrite Hsock, <- T1. lia. }
+    destruct Hwf as (Hl0 & _). destruct Hwf' as (Hl0' & _).
+    (* una' = 1 + c modulo 2^32 *)
+    assert (Hcong : sq (g_iss gt + g_una gt') = sq (g_iss gt + (1 + c))).
+    { rewrite Ha, <- Hd, sq_idem_add3. f_equal. lia. }
+    destruct (g_phase gt) eqn:Ep; [congruence| |].
+    + (* PData *)
+      assert (Huna : g_una gt = 1 + g_acked gt) by (unfold g_una; rewrite Ep; reflexivity).
+      assert (Hagec : - 2147483648 <= c - g_acked gt < 2147483648).
+      { rewrite <- Huo. apply (Hage _ c Hack); [lia|].
+        rewrite Hlsn, Huo, Huna, Ha, <- Hd, sq_idem_add3, sq_norm, seq_add_norm_l. f_equal. lia. }
+      assert (Hub : g_una gt' <= 2 + l_len (g_stream gt')).
+      { unfold g_una. destruct (g_phase gt'); lia. }
+      rewrite Hstr in Hub.
+      assert (Heq : g_una gt' = 1 + c).
+      { apply (sq_offsets_eq (g_iss gt)); [exact Hcong|]. lia. }
+      lia.
+    + (* PFinAcked: nothing left to acknowledge *)
+      exfalso. unfold phase_ok in Hph. rewrite Ep in Hph. destruct Hph as (Hl00 & _).
+      assert (Huna : g_una gt = 2 + g_acked gt) by (unfold g_una; rewrite Ep; reflexivity).
+      assert (Hub : g_una gt' <= 2 + l_len (g_stream gt')).
+      { unfold g_una. destruct (g_phase gt'); lia. }
+      rewrite Hstr in Hub. lia.
+  - (* the SYN is acknowledged: nothing was received yet *)
+    pose proof (Hquiet eq_refl) as HR0. assert (c = 0) by lia. subst c.
+    rewrite (una_syn gt Hjl) in Hlt. pose proof (Hsyn1 Hjl) as H1.
+    assert (Hu1 : g_una gt' = 1) by lia. rewrite Hu1 in *.
+    split; [|lia].
+    rewrite Hiss. replace (irs + 1 + 0) with (irs + 1) in Ha by lia.
+    apply sq_succ_inj in Ha. rewrite Ha. symmetry. apply sq_small'. exact Hirs_r.
+Qed.
+
+(* ---------------------------------------------------------------------------------------- *)
+(* receiver-side clauses of a direction                                                      *)
+(* ---------------------------------------------------------------------------------------- *)
+Section RxDir.
+  Variable S : Z -> Z.
+  Variable F : option Z.
+  Hypothesis F_nonneg : forall f, F = Some f -> 0 <= f.
+  Notation Sx := (fun _ : nat => S).
+  Notation Fx := (fun _ : nat => F).
+
+  Lemma R_bound_synced gr s L :
+    ginv Sx Fx gr s -> g_irs gr <> None -> 0 <= L ->
+    (forall k, g_have gr k -> 0 <= k < L) -> rcv_nxt_off gr s <= L + 1.
+  Proof.
+    intros Hg Hi HL Hh. pose proof (ginv_have Sx Fx gr s Hg Hi) as Hhave.
+    pose proof (rcv_nxt_off_nonneg S F F_nonneg gr s Hg Hi) as H0.
+    unfold rcv_nxt_off in *. pose proof (b2z_range (s_rx_fin_received s)) as Hb.
+    destruct (Z.leb_spec (rcv_count gr s) L); [lia|].
+    exfalso. assert (Hc : 0 <= L < rcv_count gr s) by lia.
+    specialize (Hh L (Hhave L Hc)). lia.
+  Qed.
+
+  (* x receives; [p] is the in-flight segment when the event is a segment *)
+  Lemma have_step cx s ev s' out tags gr J L R ey :
+    run_ev ev -> tcp_step cx s ev = Ok (s', out, tags) ->
+    ginv Sx Fx gr s ->
+    compat S F ey -> L = l_len (ep_written ey) ->
+    (forall ip r, ev = EvSegment ip r -> forall irs, g_irs gr = Some irs ->
+       exists p, ip = fst p /\ r = wire_parse (snd p) /\ pkt_good S F J L R p /\
+                 (forall j, J = Some j -> irs = j) /\ R = wsq (g_consumed gr) s /\ R <= L + 1 /\
+                 (forall k, -1 <= k <= L ->
+                    r_seq_number (snd p) = seq_norm (tcp_window_start s + (k - wsq (g_consumed gr) s)) ->
+                    - 2147483648 <= k - wsq (g_consumed gr) s < 2147483648)) ->
+    (forall k, g_have gr k -> J <> None /\ 0 <= k < L) ->
+    forall k, g_have (ghost_step cx gr s ev s' out) k -> J <> None /\ 0 <= k < L.
+  Proof.
+    intros Hrun Hstep Hg Hcompat HL Hseg Hold k Hk.
+    destruct ev; try contradiction; cbn [ghost_step] in Hk.
+    - apply Hold. exact Hk.
+    - apply Hold. exact Hk.
+    - destruct out; cbn [g_have] in Hk; apply Hold; exact Hk.
+    - destruct (g_irs gr) as [irs|] eqn:Ei.
+      + destruct (is_state s' Listen); [cbn in Hk; contradiction|].
+        cbn [g_have] in Hk. destruct Hk as [Hk | (Hnear & Hk1 & Hk2)]; [apply Hold; exact Hk|].
+        destruct (Hseg ip r eq_refl irs eq_refl) as (p & -> & -> & Hgood & Hanc & HR & HRL & Hage).
+        unfold ginv in Hg. rewrite Ei in Hg. destruct Hg as (Hsy & _).
+        eapply (have_of_good S F _ irs (g_consumed gr) s J L R p ey k Hsy Hcompat HL Hgood Hanc HR HRL Hage Hk1 Hk2).
+      + destruct (_ || _); [cbn in Hk; contradiction | apply Hold; exact Hk].
+    - destruct (dispatch_resets cx s); [cbn in Hk; contradiction | apply Hold; exact Hk].
+  Qed.
+
+  (* acknowledgement numbers of what x emits *)
+  Lemma uu_new gr' s' K' R' p :
+    ack_ok Fx gr' s' p -> kl K' R' gr' s' ->
+    r_control (snd p) <> CRst -> forall a, r_ack_number (snd p) = Some a ->
+    exists irs c, K' = Some irs /\ a = sq (irs + 1 + c) /\ 0 <= c <= R'.
+  Proof.
+    intros Hack (HR0 & _ & Hk) Hn a Ha.
+    destruct Hack as [Hc | [Hnone | (irs & Hi & Hnum & _)]]; [congruence | congruence|].
+    rewrite Hi in Hk. destruct Hk as (HK & HR). exists irs, R'. split; [exact HK|].
+    split; [|lia]. rewrite Ha in Hnum. inversion Hnum; subst a. rewrite HR. unfold rcv_nxt_off.
+    unfold sq, seq_norm, seq_modulus. f_equal. lia.
+  Qed.
+End RxDir.
+
+(* ---------------------------------------------------------------------------------------- *)
+(* one socket event at endpoint x (peer y), all clauses together                             *)
+(* ---------------------------------------------------------------------------------------- *)
+Lemma log_written_prefix w ev out : prefix w (log_written w ev out).
+Proof. unfold log_written. destruct ev, out; auto using prefix_refl, prefix_app. Qed.
+
+Lemma next_J_some J gt' j : J = Some j -> next_J J gt' = Some j.
+Proof. intros ->. reflexivity. Qed.
+
+Lemma next_J_keeps J gt' : J <> None -> next_J J gt' <> None.
+Proof. destruct J; [discriminate | congruence]. Qed.
+
+Lemma next_J_none J gt' : next_J J gt' = None -> J = None.
+Proof. destruct J; [discriminate | reflexivity]. Qed.
+
+Lemma wire_out_emitted out p : wire_out out = Some p -> emitted out = Some p /\ tx_emitted out = Some p.
+Proof. destruct out as [| | | |[q|]|[|q|q]]; cbn; intros H; inversion H; split; reflexivity. Qed.
+
+(* the facts about an in-flight segment p (emitted by y) that x's receiver needs *)
+Lemma deliver_facts S F ex gx ey gy p irs :
+  EP S F ex gx -> DIR S F ey gy ex gx -> In p (ep_sent ey) -> seg_age ex ey (snd p) ->
+  g_irs (eg_rx gx) = Some irs ->
+  let L := l_len (ep_written ey) in
+  let s := ep_sock ex in
+  let c := g_consumed (eg_rx gx) in
+  pkt_good S F (eg_J gy) L (eg_R gx) p /\ (forall j, eg_J gy = Some j -> irs = j) /\
+  eg_R gx = wsq c s /\ eg_R gx <= L + 1 /\
+  (forall k, -1 <= k <= L ->
+     r_seq_number (snd p) = seq_norm (tcp_window_start s + (k - wsq c s)) ->
+     - 2147483648 <= k - wsq c s < 2147483648).
+Proof.
+  intros (_ & _ & Hg & _ & (R1 & _) & _ & (_ & _ & Hk)) (Hpd & Hanc & _ & _ & _ & HRL & _) Hin (Hage & _) Hi.
+  cbv zeta. rewrite Hi in Hk. destruct Hk as (HK & HR).
+  split; [apply Hpd; exact Hin|].
+  split; [intros j HJ; apply (Hanc j irs HJ HK)|].
+  assert (Hw : eg_R gx = wsq (g_consumed (eg_rx gx)) (ep_sock ex)).
+  { rewrite HR. unfold rcv_nxt_off, rcv_count, wsq, finz. reflexivity. }
+  split; [exact Hw|]. split; [exact HRL|].
+  assert (Hoff : rcv_off ex = wsq (g_consumed (eg_rx gx)) (ep_sock ex)).
+  { unfold rcv_off, wsq, finz. rewrite <- R1 by congruence.
+    unfold ginv in Hg. rewrite Hi in Hg. destruct Hg as (_ & (Hl & _)). rewrite Hl. reflexivity. }
+  intros k Hk Hseq. rewrite <- Hoff. apply Hage; [exact Hk|]. rewrite Hoff. exact Hseq.
+Qed.
+
+Section XStep.
+  Hypothesis c05 : c05_contract.
+  Variables (Sin : Z -> Z) (Fin : option Z) (Sout : Z -> Z) (Fout : option Z).
+  Notation Sx := (fun _ : nat => Sin).
+  Notation Fx := (fun _ : nat => Fin).
+
+  Lemma xstep ex gx ey gy ev ex' s' out tags :
+    EP Sin Fin ex gx -> EP Sout Fout ey gy ->
+    DIR Sout Fout ex gx ey gy -> DIR Sin Fin ey gy ex gx ->
+    compat Sout Fout ex' -> compat Sin Fin ey ->
+    run_ev ev -> tcp_step (ep_cx ex) (ep_sock ex) ev = Ok (s', out, tags) -> xfacts ex ev ex' s' out ->
+    (forall ip r, ev = EvSegment ip r ->
+       exists p, In p (ep_sent ey) /\ ip = fst p /\ r = wire_parse (snd p) /\ seg_age ex ey (snd p)) ->
+    (forall n, ev = EvRecv n -> 0 <= n) ->
+    let gr' := ghost_step (ep_cx ex) (eg_rx gx) (ep_sock ex) ev s' out in
+    (forall irs', g_irs (eg_rx gx) = None -> g_irs gr' = Some irs' ->
+                  forall k, eg_K gx = Some k -> k = irs') ->
+    (forall irs' j, g_irs (eg_rx gx) = None -> g_irs gr' = Some irs' -> eg_K gx = None ->
+                    eg_J gy = Some j -> irs' = j) ->
+    exists gt',
+      let gx' := next_g gx gt' gr' s' in
+      EP Sin Fin ex' gx' /\ DIR Sout Fout ex' gx' ey gy /\ DIR Sin Fin ey gy ex' gx' /\
+      inv gt' s' /\
+      (tx_same (eg_tx gx) (ep_sock ex) ev gt' out \/
+       tx_new (ep_cx ex) (eg_tx gx) (ep_sock ex) ev gt' s' out) /\
+      (forall p, tx_emitted out = Some p -> tx_pkt_ok gt' p) /\
+      (eg_J gx = None -> forall j, eg_J gx' = Some j -> eg_K gy = Some j).
+  Proof.
+    intros HEPx HEPy HDxy HDyx Hcout Hcin Hrun Hstep Hxf Hseg Hrecv gr' Hresync Hancsync.
+    pose proof HEPx as (Hinv & Hcx & Hg & Htxl & Hrxl & Hjl & Hkl).
+    pose proof HEPy as (_ & _ & _ & _ & _ & _ & Hkly).
+    pose proof HDxy as (Hpd & Hanc & Hhv & Hquiet & Hvv & HRL & Huu).
+    pose proof HDyx as (Hpd2 & Hanc2 & Hhv2 & Hquiet2 & Hvv2 & HRL2 & Huu2).
+    pose proof Hxf as (X1 & X2 & X3 & X4 & X5 & X6 & X7).
+    pose proof (compat_F_nonneg _ _ _ Hcin) as HFnn.
+    set (s := ep_sock ex) in *. set (cx := ep_cx ex) in *.
+    set (gt := eg_tx gx) in *. set (gr := eg_rx gx) in *.
+    destruct (ginv_wf Sx Fx gr s Hg) as (Hwf & _ & Hsh).
+    (* admissibility of the event for the receiver *)
+    assert (Hevrx : ev_ok Sx Fx gr s ev).
+    { destruct ev; try exact I.
+      - apply (Hrecv n eq_refl).
+      - destruct (Hseg ip r eq_refl) as (p & Hin & -> & -> & Hage).
+        pose proof (Hpd2 p Hin) as ((W1 & _) & _).
+        destruct (wire_parse_fields (snd p)) as (_ & P2 & _).
+        split; [rewrite P2; exact W1|].
+        destruct (g_irs gr) as [irs|] eqn:Ei; [|exact I].
+        destruct (deliver_facts Sin Fin ex gx ey gy p irs HEPx HDyx Hin Hage Ei) as (Hgood & Hanc' & HR & HRL' & Hage').
+        unfold ginv in Hg. fold gr in Ei. rewrite Ei in Hg. destruct Hg as (Hsy & _).
+        eapply (seg_ok_of_good Sin Fin _ irs _ s _ _ _ p ey Hsy Hcin eq_refl Hgood Hanc' HR HRL' Hage'). }
+    assert (Hevtx : match ev with EvSegment ip r => repr_ok r | _ => True end).
+    { destruct ev; try exact I. destruct (Hseg ip r eq_refl) as (p & Hin & _ & -> & _).
+      apply repr_ok_parse. apply (Hpd2 p Hin). }
+    (* C05 and C04 *)
+    destruct (c05 cx gt s ev s' out tags Hinv Hcx Hevtx (rb_wf_conv _ Hwf) Hsh Hstep) as (gt' & Hinv' & Hrel & Hpk).
+    pose proof (step_inv Sx Fx (Fx_nonneg Fin HFnn) cx gr s ev s' out tags Hg Hevrx Hstep) as (Hg' & Hack & _).
+    fold gr' in Hg', Hack.
+    exists gt'. cbv zeta.
+    (* links *)
+    pose proof (txl_step cx ex ev ex' s' out tags gt gt' Hrun Hstep Hxf Hinv' Hrel Htxl) as Htxl'.
+    pose proof (jl_step cx s ev s' out tags gt gt' (eg_J gx) Hrun Hstep Hinv' Hrel Hjl) as Hjl'.
+    pose proof (rxl_step Sin Fin HFnn cx ex ev ex' s' out tags gr Hrun Hstep Hxf Hg Hevrx Hrxl) as Hrxl'.
+    destruct (kl_step Sin Fin HFnn cx s ev s' out tags gr (eg_K gx) (eg_R gx) Hrun Hstep Hg Hevrx Hresync Hkl)
+      as (Hkl' & HRmono).
+    fold gr' in Hrxl', Hkl', HRmono.
+    set (J' := next_J (eg_J gx) gt') in *. set (K' := next_K (eg_K gx) gr') in *.
+    set (R' := next_R (eg_R gx) gr' s') in *.
+    assert (HLmono : l_len (ep_written ex) <= l_len (ep_written ex')).
+    { rewrite X4. apply l_len_prefix. apply log_written_prefix. }
+    destruct Hkly as (HRy0 & HKyr & _).
+    (* SND.UNA: either unchanged / reset, or advanced by an in-flight ACK *)
+    assert (Huna : g_una gt' <= g_una gt \/
+                   (tx_same gt s ev gt' out /\ g_una gt < g_una gt')).
+    { destruct Hrel as [Hs | ((_ & _ & Hp') & _)].
+      - destruct (Z.leb_spec (g_una gt') (g_una gt)); [left; assumption | right; split; assumption].
+      - left. rewrite (una_syn gt' Hp'). apply (una_nonneg gt s Hinv). }
+    assert (Hadv : g_una gt < g_una gt' -> tx_same gt s ev gt' out ->
+                   exists irs, eg_K gy = Some irs /\ irs = sq (g_iss gt') /\ g_una gt' <= eg_R gy + 1).
+    { intros Hlt Hs. pose proof Hs as (_ & _ & _ & _ & _ & _ & _ & Hadv0).
+      destruct (Hadv0 Hlt) as (ip & r & Hev & _). subst ev.
+      destruct (Hseg ip r eq_refl) as (p & Hin & -> & -> & (_ & Hage)).
+      eapply (una_advance s _ s' out gt gt' (eg_J gx) (eg_K gy) (eg_R gy) (l_len (ep_written ex)) p ex
+                Hinv Hinv' Hs Hlt eq_refl); try eassumption; try reflexivity.
+      intros Hn a Ha. apply (Huu p Hin Hn a Ha). }
+    assert (Hvv' : g_una gt' <= eg_R gy + 1).
+    { destruct Huna as [Hle | (Hs & Hlt)]; [fold gt in Hvv; lia|].
+      destruct (Hadv Hlt Hs) as (_ & _ & _ & H). exact H. }
+    assert (HJnew : eg_J gx = None -> forall j, J' = Some j -> eg_K gy = Some j).
+    { intros HJ j Hj'. unfold J', next_J in Hj'. rewrite HJ in Hj'.
+      destruct (phase_syn gt') eqn:Ep; [discriminate|]. inversion Hj'; subst j; clear Hj'.
+      apply phase_syn_false in Ep. unfold jl in Hjl. rewrite HJ in Hjl.
+      destruct Huna as [Hle | (Hs & Hlt)].
+      - exfalso. rewrite (una_syn gt Hjl) in Hle. pose proof (una_pos gt' s' Hinv' Ep). lia.
+      - destruct (Hadv Hlt Hs) as (irs & HK & Hirs & _). rewrite <- Hirs. exact HK. }
+    split; [|split; [|split; [|split; [exact Hinv'|split; [exact Hrel|split; [exact Hpk|exact HJnew]]]]]].
+    - (* EP x *)
+      unfold EP. cbn [eg_tx eg_rx eg_J eg_K eg_R next_g]. rewrite X1, X2.
+      split; [exact Hinv'|]. split; [exact Hcx|]. split; [exact Hg'|]. split; [exact Htxl'|].
+      split; [exact Hrxl'|]. split; [exact Hjl' | exact Hkl'].
+    - (* x -> y *)
+      unfold DIR. cbn [eg_tx eg_rx eg_J eg_K eg_R next_g].
+      split; [|split; [|split; [|split; [|split; [exact Hvv'|split; [lia | exact Huu]]]]]].
+      + intros p Hin. rewrite X3 in Hin. apply in_app_or in Hin. destruct Hin as [Hin | Hin].
+        * pose proof (Hpd p Hin) as Hgood.
+          apply (pkt_good_mono _ _ _ (l_len (ep_written ex)) (eg_R gy)); [exact HLmono | lia|].
+          unfold J', next_J. destruct (eg_J gx) as [j|]; [exact Hgood|].
+          destruct (phase_syn gt'); [exact Hgood | apply pkt_good_set_J; exact Hgood].
+        * destruct (wire_out out) as [q|] eqn:Ew; cbn in Hin; [|contradiction].
+          destruct Hin as [<- | []]. destruct (wire_out_emitted _ _ Ew) as (_ & Ht).
+          apply (pkt_good_new Sout Fout ex' gt' J' (eg_R gy) q); try assumption.
+          -- rewrite X1. exact Hinv'.
+          -- apply Hpk. exact Ht.
+          -- rewrite X1. exact Hjl'.
+      + intros j k Hj HK. destruct (eg_J gx) as [j0|] eqn:EJ.
+        * unfold J', next_J in Hj. inversion Hj; subst j0. apply (Hanc j k eq_refl HK).
+        * pose proof (HJnew eq_refl j Hj) as HK'. congruence.
+      + intros k Hk. destruct (Hhv k Hk) as (H1 & H2). split; [apply next_J_keeps; exact H1 | lia].
+      + intros HJ'. apply Hquiet. apply (next_J_none _ _ HJ').
+    - (* y -> x *)
+      unfold DIR. cbn [eg_tx eg_rx eg_J eg_K eg_R next_g].
+      assert (Hhv2' : forall k, g_have gr' k -> eg_J gy <> None /\ 0 <= k < l_len (ep_written ey)).
+      { apply (have_step Sin Fin cx s ev s' out tags gr (eg_J gy) _ (eg_R gx) ey Hrun Hstep Hg Hcin eq_refl); [|exact Hhv2].
+        intros ip r -> irs Ei. destruct (Hseg ip r eq_refl) as (p & Hin & -> & -> & Hage).
+        exists p. split; [reflexivity|]. split; [reflexivity|].
+        apply (deliver_facts Sin Fin ex gx ey gy p irs HEPx HDyx Hin Hage Ei). }
+      assert (HL0 : 0 <= l_len (ep_written ey)) by apply TcpRecvBase.l_len_nonneg.
+      split; [|split; [|split; [exact Hhv2'|split; [|split; [lia|split]]]]].
+      + intros p Hin. apply (pkt_good_mono _ _ _ (l_len (ep_written ey)) (eg_R gx)); [lia | exact HRmono|].
+        apply Hpd2. exact Hin.
+      + intros j k Hj HK. unfold K', next_K in HK. destruct (eg_K gx) as [k0|] eqn:EK.
+        * inversion HK; subst k0. apply (Hanc2 j k Hj eq_refl).
+        * assert (Hun : g_irs gr = None).
+          { destruct Hkl as (_ & _ & Hk). destruct (g_irs gr); [destruct Hk; congruence | reflexivity]. }
+          apply (Hancsync k j Hun HK eq_refl Hj).
+      + (* quiet *)
+        intros HJ. unfold R', next_R. destruct (g_irs gr') as [irs'|] eqn:Ei'; [|apply Hquiet2; exact HJ].
+        assert (Hrc : rcv_count gr' s' = 0).
+        { pose proof (ginv_have Sx Fx gr' s' Hg' ltac:(congruence)) as Hh.
+          destruct (Z.leb_spec (rcv_count gr' s') 0) as [Hle|Hgt].
+          - unfold ginv in Hg'. rewrite Ei' in Hg'. destruct Hg' as (((Hwf' & _ & _ & _ & Hc0 & _) & _) & _).
+            destruct Hwf' as (Hl0 & _). unfold rcv_count in *. lia.
+          - exfalso. destruct (Hhv2' 0 (Hh 0 ltac:(lia))) as (Hne & _). congruence. }
+        assert (Hfin' : s_rx_fin_received s' = false).
+        { destruct (s_rx_fin_received s') eqn:Ef; [exfalso | reflexivity].
+          destruct (fin_only_from_fin Sx Fx (Fx_nonneg Fin HFnn) cx gr s ev s' out tags Hg Hevrx Hstep Ef)
+            as [Hold | (ip & r & -> & Hc)].
+          - pose proof (Hquiet2 HJ) as HR0. destruct Hkl as (_ & _ & Hk).
+            unfold ginv in Hg. destruct (g_irs gr) as [irs|] eqn:Ei.
+            + destruct Hk as (_ & HR). rewrite HR0 in HR. unfold rcv_nxt_off in HR. rewrite Hold in HR.
+              destruct Hg as (((Hwf0 & _ & _ & _ & Hc0 & _) & _) & _). destruct Hwf0 as (Hl0 & _).
+              unfold rcv_count in HR. cbn [b2z] in HR. lia.
+            + destruct Hg as ((_ & _ & _ & _ & Hf0 & _) & _). congruence.
+          - destruct (Hseg ip r eq_refl) as (p & Hin & _ & -> & _).
+            destruct (wire_parse_fields (snd p)) as (_ & _ & P3 & _). rewrite P3 in Hc.
+            destruct (Hpd2 p Hin) as (_ & Hcar). destruct (Hcar (or_intror Hc)) as (j & Hj & _). congruence. }
+        unfold rcv_nxt_off. rewrite Hrc, Hfin'. reflexivity.
+      + (* R' <= L + 1 *)
+        unfold R', next_R. destruct (g_irs gr') as [irs'|] eqn:Ei'; [|exact HRL2].
+        apply (R_bound_synced Sin Fin HFnn gr' s' _ Hg'); [congruence | exact HL0|].
+        intros k Hk. apply (Hhv2' k Hk).
+      + (* acknowledgement numbers of x *)
+        intros p Hin Hn a Ha. rewrite X3 in Hin. apply in_app_or in Hin. destruct Hin as [Hin | Hin].
+        * destruct (Huu2 p Hin Hn a Ha) as (irs & c & HK & Hac & Hc). exists irs, c.
+          split; [unfold K', next_K; rewrite HK; reflexivity|]. split; [exact Hac | lia].
+        * destruct (wire_out out) as [q|] eqn:Ew; cbn in Hin; [|contradiction].
+          destruct Hin as [<- | []]. destruct (wire_out_emitted _ _ Ew) as (He & _).
+          apply (uu_new Sin Fin HFnn gr' s' K' R' q (Hack q He) Hkl' Hn a Ha).
+  Qed.
+End XStep.
